@@ -72,6 +72,18 @@ def run_check(P, tier, seed, replay=None):
         print_assumptions=("all %d theorems: Closed under the global context" % len(assum)) if not axioms else axioms,
     )
 
+    if tier == "thorough" and obl_ok and not gate and not replay:
+        # independent re-check of the compiled property module and everything it depends on
+        import subprocess
+        mod = "DH." + P.PROP_FILE[:-2].replace("/", ".")
+        cp = subprocess.run(["timeout", "3000", "coqchk", "-silent", "-o", "-Q", vlib.COQ, "DH", mod],
+                            stdout=subprocess.PIPE, stderr=subprocess.STDOUT, text=True)
+        summary = cp.stdout[cp.stdout.find("CONTEXT SUMMARY"):][:1500] if "CONTEXT SUMMARY" in cp.stdout else cp.stdout[-800:]
+        coverage["coqchk"] = {"cmd": "coqchk -silent -o -Q coq DH " + mod, "exit": cp.returncode,
+                              "summary": " ".join(summary.split())}
+        if cp.returncode != 0:
+            proof_problem = "coqchk rejects %s: %s" % (mod, cp.stdout[-1200:])
+
     # ---- 2. driver -------------------------------------------------------------------------------
     build_problem = None
     binp = None
